@@ -300,6 +300,18 @@ class InlinePass(ir.passes.InPlacePass):
                 if output.name is not None:
                     self._used_value_names.add(output.name)
 
+        # Names used inside nested subgraphs are visible to the checker as well (a node output must
+        # not shadow a name of an enclosing graph): reserve them before naming inlined values.
+        for inner in ir.traversal.RecursiveGraphIterator(graph):
+            for output in inner.outputs:
+                if output.name:
+                    self._used_value_names.add(output.name)
+            inner_graph = inner.graph
+            if isinstance(inner_graph, ir.Graph) and inner_graph is not graph:
+                for value in (*inner_graph.inputs, *inner_graph.initializers.values()):
+                    if value.name:
+                        self._used_value_names.add(value.name)
+
         next_id: dict[ir.OperatorIdentifier, int] = defaultdict(int)
         inlined_count = 0
         for node in graph:
